@@ -203,6 +203,9 @@ def anchors_font(rng):
             gl += [("alef-ar", 0x627), ("fatha-ar", 0x64E)]
         marks = [n for n, _ in gl if n.endswith("comb") or n == "fatha-ar"]
         ligs = ["f_i", "f_f_i"]
+        if rng.random() < 0.3:
+            gl.append(("longlig", None))        # a ligature with two-digit component numbers
+            ligs.append("longlig")
     gl = [g for g in gl if rng.random() < 0.85 or g[0] in marks[:1]]
     names = [n for n, _ in gl]
     marks = [m for m in marks if m in names]
@@ -220,7 +223,7 @@ def anchors_font(rng):
                 for c in rng.sample(classes, 1):
                     anchors[n].append((c, q4(rng, -100, 100), q4(rng, 600, 800)))
         elif n in ligs:
-            ncomp = 3 if n == "f_f_i" else 2
+            ncomp = 3 if n == "f_f_i" else (rng.choice([10, 11, 12, 21]) if n == "longlig" else 2)
             for c in rng.sample(classes, rng.randint(1, min(2, len(classes)))):
                 if "." in c:
                     continue
